@@ -186,9 +186,7 @@ func (r *lrunner) runFault(cs LCase) (out Outcome, problem string) {
 	case "recv":
 		faultExpected = n >= cs.K
 		if cs.Inject == "probe" {
-			p.failRecvAt.Store(int64(cs.K))
-			faultExpected = true // the k-th Recv call fails whether or not a message arrives... only once k messages were read
-			faultExpected = n >= cs.K
+			p.failRecvAt.Store(int64(cs.K)) // the Recv call after k messages fails
 		} else {
 			echo.failAfter = cs.K
 		}
@@ -516,6 +514,8 @@ func genCases(r *drv.Rng, n int, tier string) []LCase {
 		}
 		return b
 	}
+	// no fault at all: StartSending against AwaitConverged (first, so that it is reported)
+	cases = append(cases, LCase{Kind: "lockorder", Burst: burst(3), Side: "none", Mode: "close", Iter: 150})
 	// systematic part: every message index of the exchange, both sides, burst 1..12
 	sizes := []int{1, 3, 7, 12}
 	if tier != "quick" {
@@ -561,7 +561,7 @@ func genCases(r *drv.Rng, n int, tier string) []LCase {
 		}
 		cases = append(cases, c)
 	}
-	cases = append(cases, LCase{Kind: "lockorder", Burst: burst(3), Side: "none", Mode: "close", Iter: 150})
+	cases = append(cases, LCase{Kind: "lockorder", Burst: burst(8), Side: "none", Mode: "close", Iter: 100})
 	return cases
 }
 
